@@ -10,7 +10,26 @@
 (***************************************************************************)
 EXTENDS Integers, FiniteSets, TLC
 
-CONSTANTS Clients, Conns, Tracked, Untracked, Values, Default, NONE, MaxOps, Dev
+\* (the @type comments are for Apalache, which proves the invariants inductive for histories of any length: ParamsApa.tla)
+CONSTANTS
+  \* @type: Set(Str);
+  Clients,
+  \* @type: Set(Str);
+  Conns,
+  \* @type: Set(Str);
+  Tracked,
+  \* @type: Set(Str);
+  Untracked,
+  \* @type: Set(Str);
+  Values,
+  \* @type: Str;
+  Default,
+  \* @type: Str;
+  NONE,
+  \* @type: Int;
+  MaxOps,
+  \* @type: Set(Str);
+  Dev
 \* Dev: "quote_not_escaped" - the sync statement SET p TO 'v' is built without escaping quotes: a value from
 \*                            QuoteValues makes the statement fail on the server
 \*      "no_sync"           - parameters are not synchronised at checkout
@@ -19,7 +38,21 @@ CONSTANTS Clients, Conns, Tracked, Untracked, Values, Default, NONE, MaxOps, Dev
 QuoteValues == {"vq"}
 Params == Tracked \cup Untracked
 
-VARIABLES want, bel, tru, holder, dirty, nops, viol
+VARIABLES
+  \* @type: Str -> (Str -> Str);
+  want,
+  \* @type: Str -> (Str -> Str);
+  bel,
+  \* @type: Str -> (Str -> Str);
+  tru,
+  \* @type: Str -> Str;
+  holder,
+  \* @type: Str -> Bool;
+  dirty,
+  \* @type: Int;
+  nops,
+  \* @type: Set(<<Str, Str>>);
+  viol
 vars == <<want, bel, tru, holder, dirty, nops, viol>>
 
 Init == /\ want = [c \in Clients |-> [p \in Tracked |-> Default]]
